@@ -4,12 +4,37 @@
 from lib import c02trans, c14admin, c14proxy, queuefam, twostores
 
 
+def before_horizon(ctx, info):
+    """a `before` criterion outside the int64 nanosecond range (the queue model is over unbounded integers; judged on the stores): three messages
+    received now, one of them dead - "before 1 January <year>" selects all of them for a year after now and none for a year before"""
+    import json, os
+    from lib import common as C
+    d = os.path.join(ctx.scratch, "bh")
+    os.makedirs(d, exist_ok=True)
+    years = [1000, 1600, 1677, 1970, 2100, 2262, 2263, 2300, 9999]
+    rc, out, err = C.harness_run(info["hbin"], ["before-horizon"], {"dir": d, "now_ns": 1_790_000_000 * 10 ** 9, "years": years}, timeout=120)
+    if rc != 0:
+        raise RuntimeError("before-horizon failed: " + err[-1500:])
+    rows = json.loads(out)["rows"]
+    for r in rows:
+        after = r["year"] > 2026
+        want = {"listed": 3 if after else 0, "dead_listed": 1 if after else 0, "cancel_preview": 3 if after else 0, "requeue_changed": 1 if after else 0}
+        got = {k: r[k] for k in want}
+        if r.get("err") or got != want:
+            C.report(ctx, "before-beyond-int64-horizon:%s" % r["backend"],
+                     "criterion `before 1 January %d` on the %s store (three messages received in 2026, one dead): listed / dead listed / cancel-by-filter preview / "
+                     "requeue-by-filter changed = %s, the criterion selects %s (%s)" % (r["year"], r["backend"], got, want, r.get("err") or "no error"),
+                     {"kind": "history", "case": {"backend": r["backend"], "before_year": r["year"]}, "observed": r, "expected": want})
+    return {"before_horizon": {"rows": len(rows), "years": years}}
+
+
 def _extra(ctx, info, rng, fam, hs):
     # the proxy layer runs in the background (two of its calls wait for the MCP server's 5 s Admin timeout)
     px = c14proxy.start(ctx, info)
     cov = c14admin.run(ctx, info, rng, fam, hs) or {}
     cov.update(c02trans.run_manage_only(ctx, info, rng, fam, hs) or {})
     cov.update(twostores.run_filter(ctx, info))
+    cov.update(before_horizon(ctx, info))
     cov.update(c14proxy.finish(px) or {})
     return cov
 
